@@ -25,6 +25,7 @@ POINTS = [Fraction(7, 3), Fraction(-11, 5), Fraction(13, 7), Fraction(-17, 4), F
 #   ["L", n, p, m, dt_tok, A, B, C, D]   flat row-major rational tokens
 #   ["S", q, kind]   ["A", p, m, [q...], dtype]
 #   ["neg", x] ["pow", k, x] ["fb", sign, via, x, y] ["sel", rows, cols, x] [binop, x, y]
+#   ["lft", nu, ny, x, y]      x.lft(y, nu, ny)   (nu / ny = -1: the default)
 # ----------------------------------------------------------------------------
 
 def flatten(t):
@@ -42,6 +43,8 @@ def flatten(t):
         return flatten(t[2]) + " pow %d" % t[1]
     if k == "fb":
         return flatten(t[3]) + " " + flatten(t[4]) + " fb " + t[1]
+    if k == "lft":
+        return flatten(t[3]) + " " + flatten(t[4]) + " lft %d %d" % (t[1], t[2])
     if k == "sel":
         return flatten(t[3]) + " sel %d %s %d %s" % (
             len(t[1]), " ".join(map(str, t[1])), len(t[2]), " ".join(map(str, t[2])))
@@ -58,7 +61,7 @@ def children(t):
         return [1]
     if k == "pow":
         return [2]
-    if k == "fb":
+    if k in ("fb", "lft"):
         return [3, 4]
     if k == "sel":
         return [3]
@@ -86,7 +89,7 @@ def has_dynamic_leaf(t):
 
 def inexact(t):
     """the tree contains an operation that solves/inverts, or non-integer data"""
-    if t[0] in ("fb", "div") or (t[0] == "pow" and t[1] < 0):
+    if t[0] in TOPS or (t[0] == "pow" and t[1] < 0):
         return True
     if t[0] == "L":
         return any(Fraction(x).denominator != 1 for part in t[5:9] for x in part)
@@ -97,7 +100,7 @@ def inexact(t):
 
 def nested_inexact(t):
     """an inverting operation applied to an operand that itself contains one"""
-    if t[0] in ("fb", "div") or (t[0] == "pow" and t[1] < 0):
+    if t[0] in TOPS or (t[0] == "pow" and t[1] < 0):
         if any(inexact(t[i]) for i in children(t)):
             return True
     return any(nested_inexact(t[i]) for i in children(t))
@@ -110,7 +113,7 @@ def classify_exc(e):
     if isinstance(e, ValueError):
         if "timebase" in msg or "Time steps" in msg:
             return "timebase"
-        if "singular" in msg:
+        if "singular" in msg or "well-posed" in msg:
             return "illPosed"
         return "shape"
     if isinstance(e, (TypeError, NotImplementedError)):
@@ -168,6 +171,17 @@ def run_tree(t):
         if t[2] == "func":
             return ct.feedback(a, b, sign)
         return a.feedback(b, sign)
+    if k == "lft":
+        a, b = run_tree(t[3]), run_tree(t[4])
+        if not isinstance(a, ct.StateSpace):
+            raise ValueError("lft: upper operand is not a system")
+        if t[1] == -1 and t[2] == -1:
+            return a.lft(b)
+        if t[2] == -1:
+            return a.lft(b, nu=t[1])
+        if t[1] == -1:
+            return a.lft(b, ny=t[2])
+        return a.lft(b, t[1], t[2])
     if k == "sel":
         return run_tree(t[3])[t[1], t[2]]
     a, b = run_tree(t[1]), run_tree(t[2])
@@ -207,6 +221,12 @@ def mats(o):
             exmat.from_flat(o["C"], p, n), exmat.from_flat(o["D"], p, m))
 
 
+def one_by_zero(o):
+    """B, C or D of the (model) result has shape (1, 0): not representable by the StateSpace
+    constructor, whose _ssmatrix turns every (1, 0) array into (0, 0)"""
+    return o["type"] == "ss" and ((o["m"] == 0 and 1 in (o["n"], o["p"])) or (o["n"] == 0 and o["p"] == 1))
+
+
 class C02(Family):
     prop = "C02"
     externals = ["numpy.linalg.solve / scipy.linalg.inv / matrix_rank (the model uses det != 0 and "
@@ -219,7 +239,9 @@ class C02(Family):
         "the timebase of results is decided by C05; C02 uses operands with compatible timebases"]
     rule = ("random expression trees over StateSpace leaves (nstates 0..3, shapes {1,2,3}^2, integer "
             "matrices -3..3, D zero or not), Python/NumPy scalars and arrays on either side, "
-            "operators + - * / neg ** feedback append indexing; a case is non-trivial when it has a "
+            "operators + - * / neg ** feedback lft append indexing (lft: every nu/ny partition with "
+            "nu+ny <= 4 of upper/lower shapes up to 4x4, explicit and default (-1) arguments, zero and "
+            "non-zero D22 / Dbar11, exactly singular F, out-of-range nu/ny); a case is non-trivial when it has a "
             "leaf with states, at least one binary operator or feedback, and the model result has "
             "states; distinct = distinct canonical serialisation")
 
@@ -266,7 +288,7 @@ class C02(Family):
         p, m = shape
         if depth <= 0 or rng.random() < 0.2 or invertible:
             return self.leaf(rng, shape, dt, invertible)
-        ops = ["add", "add", "sub", "mul", "mul", "neg", "sel", "fb", "fb", "div"]
+        ops = ["add", "add", "sub", "mul", "mul", "neg", "sel", "fb", "fb", "div", "lft", "lft"]
         if p == m:
             ops += ["pow", "pow"]
         if p >= 2 and m >= 2:
@@ -333,6 +355,8 @@ class C02(Family):
             else:
                 other = self.array(rng, back)
             return [op, sign, via, self.gen(rng, d, shape, dt), other]
+        if op == "lft":
+            return self.lft_node(rng, d, shape, dt, bad)
         if op == "sel":
             P, M = p + rng.choice([0, 1]), m + rng.choice([0, 1])
             rows = rng.sample(range(P), p)
@@ -346,9 +370,88 @@ class C02(Family):
             return [op, self.gen(rng, d, (p1, m1), dt), b]
         raise AssertionError(op)
 
+    def lft_parts(self, rng, shape):
+        """(nu, ny, shape of the upper system, shape of the lower system) for a result of the
+        given shape: result outputs = (p_G - ny) + (p_H - nu), inputs = (m_G - nu) + (m_H - ny)"""
+        p, m = shape
+        for _ in range(300):
+            nu, ny = rng.choice([0, 1, 1, 2, 2, 3]), rng.choice([0, 1, 1, 2, 2, 3])
+            p1, m1 = rng.randint(0, p), rng.randint(0, m)
+            gs, hs = (p1 + ny, m1 + nu), (p - p1 + nu, m - m1 + ny)
+            if nu + ny <= 4 and min(gs + hs) >= 1 and max(gs + hs) <= 4:
+                return nu, ny, gs, hs
+        return 1, 1, (p // 2 + 1, m // 2 + 1), (p - p // 2 + 1, m - m // 2 + 1)
+
+    def lft_args(self, rng, nu, ny, gs, hs, bad=False):
+        """the nu / ny arguments: -1 where the value is the default, out-of-range when `bad`"""
+        a_nu = -1 if nu == min(hs[0], gs[1]) and rng.random() < 0.4 else nu
+        a_ny = -1 if ny == min(hs[1], gs[0]) and rng.random() < 0.4 else ny
+        if bad:
+            if rng.random() < 0.5:
+                a_nu = rng.choice([nu + 1, nu + 2, min(hs[0], gs[1]) + 1, max(hs[0], gs[1]) + 1, -2, -3])
+            else:
+                a_ny = rng.choice([ny + 1, ny + 2, min(hs[1], gs[0]) + 1, max(hs[1], gs[0]) + 1, -2, -3])
+        return a_nu, a_ny
+
+    def lft_node(self, rng, d, shape, dt, bad=False):
+        nu, ny, gs, hs = self.lft_parts(rng, shape)
+        a_nu, a_ny = self.lft_args(rng, nu, ny, gs, hs, bad)
+        x = self.gen(rng, min(d, 1), gs, dt)
+        r = rng.random()
+        if r < 0.8:
+            y = self.gen(rng, min(d, 1), hs, dt)
+        elif r < 0.9 and hs == (1, 1):
+            y = self.scalar(rng)
+        else:
+            y = self.array(rng, hs)
+        return ["lft", a_nu, a_ny, x, y]
+
+    def lft_special(self, rng, dt):
+        """leaves only: every partition of shapes up to 4x4 (nu + ny <= 4), zero / non-zero D22 and
+        Dbar11, ill-posed F, invalid partitions"""
+        gs = (rng.randint(1, 3), rng.randint(1, 3))
+        hs = (rng.randint(1, 3), rng.randint(1, 3))
+        if rng.random() < 0.25:
+            gs, hs = (rng.randint(1, 4), rng.randint(1, 4)), (rng.randint(1, 4), rng.randint(1, 4))
+        for _ in range(100):
+            nu, ny = rng.randint(0, min(gs[1], hs[0])), rng.randint(0, min(gs[0], hs[1]))
+            if nu + ny <= 4:
+                break
+        else:
+            nu, ny = 1, 1
+        ng = rng.choice([0, 1, 1, 2, 2, 3])
+        nh = rng.choice([0, 1, 1, 2, 2, 3])
+        g = self.leaf(rng, gs, dt, n=ng)
+        h = self.leaf(rng, hs, dt, n=nh)
+        r = rng.random()
+        Dg, Dh = exmat.from_flat(g[8], *gs), exmat.from_flat(h[8], *hs)
+        if r < 0.2:           # D22 = 0 (strictly proper from u to y)
+            for i in range(gs[0] - ny, gs[0]):
+                for j in range(gs[1] - nu, gs[1]):
+                    Dg[i][j] = Fraction(0)
+        elif r < 0.3:         # Dbar11 = 0
+            for i in range(nu):
+                for j in range(ny):
+                    Dh[i][j] = Fraction(0)
+        elif r < 0.55 and nu >= 1 and ny >= 1:      # ill-posed: det(I - D22 Dbar11) = 0
+            i, j = rng.randrange(ny), rng.randrange(nu)
+            c = Fraction(rng.choice([1, -1, 2, -2]))
+            if all(x == 0 for row in Dg for x in row):
+                Dg = [[Fraction(rng.randint(-3, 3)) for _ in row] for row in Dg]
+            Dg[gs[0] - ny + i][gs[1] - nu + j] = c
+            for a in range(nu):
+                for b in range(ny):
+                    Dh[a][b] = Fraction(0)
+            Dh[j][i] = 1 / c
+        g[8], h[8] = exmat.flat_tokens(Dg), exmat.flat_tokens(Dh)
+        a_nu, a_ny = self.lft_args(rng, nu, ny, gs, hs, bad=rng.random() < 0.08)
+        return ["lft", a_nu, a_ny, g, h]
+
     def special(self, rng):
         """streams that need something specific"""
         dt = rng.choice(["C", "C", "N", "T", DT01])
+        if rng.random() < 0.4:
+            return self.lft_special(rng, dt)
         r = rng.random()
         if r < 0.25:    # system + array of the same non-square shape / wrong shapes
             shape = rng.choice([(3, 2), (2, 3), (1, 2), (2, 1), (3, 1), (2, 2), (1, 3)])
@@ -394,6 +497,8 @@ class C02(Family):
             dt = rng.choice(["C", "C", "C", "N", "T", DT01, "D1/4"])
             depth = rng.choice([1, 2, 2, 3]) if maxd == 3 else rng.choice([1, 2, 3, 3, 4])
             out.append({"tree": self.gen(rng, depth, self.rshape(rng), dt)})
+        for i in range(60 if tier == "quick" else 1200):      # lft partitions on leaves
+            out.append({"tree": self.lft_special(rng, rng.choice(["C", "C", "N", "T", DT01]))})
         return out
 
     def corpus(self):
@@ -404,6 +509,10 @@ class C02(Family):
             {"tree": ["add", g32, ["A", 3, 2, ["1"] * 6, "float"]]},
             {"tree": ["add", g22, ["A", 2, 1, ["1", "2"], "float"]]},
             {"tree": ["fb", "1", "method", L(1, 1, 1, [-1], [1], [1], [0]), L(1, 1, 1, [-2], [1], [1], [1])]},
+            {"tree": ["lft", 1, 1, L(1, 2, 2, [-1], [1, 2], [1, 3], [0, 1, 1, 0]), L(1, 1, 1, [-2], [1], [1], [1])]},
+            {"tree": ["lft", -1, -1, L(1, 2, 2, [-1], [1, 2], [1, 3], [0, 1, 1, 1]), L(1, 1, 1, [-2], [1], [1], [1])]},
+            {"tree": ["lft", 1, 2, L(2, 3, 2, [-1, 0, 1, -2], [1, 2, 0, 1], [1, 3, 0, 1, 2, 2], [0, 1, 1, 2, 0, 0]),
+                      L(1, 2, 3, [-2], [1, 0, 2], [1, 3], [1, 0, 0, 2, 1, 0])]},
         ]
 
     # ---- execution ----------------------------------------------------------
@@ -479,15 +588,21 @@ class C02(Family):
             if model["err"] == "illPosed" and nested_inexact(t):
                 return Verdict(AGREE)   # conditioning guard: singularity of a rounded intermediate
             if model["err"] in ("shape", "illPosed", "indexRange", "zeroDen"):
+                feat = self.features(case, "returns-" + model["err"], impl)
+                if impl["ok"]["type"] == "nonfinite":
+                    feat["nonfinite"] = True       # the returned system has inf / nan entries
+                    feat.pop("ops")
                 return Verdict(VIOLATES, "a system was returned where the result does not exist "
-                               "(model: %s)" % model["err"], self.features(case, "returns-" + model["err"], impl))
+                               "(model: %s)" % model["err"], feat)
             return Verdict(DIFFERS, "model raises %s, implementation returns" % model["err"],
                            self.features(case, "returns-" + model["err"], impl))
         if "err" in impl:
             if nested_inexact(t) and impl["err"] in ("illPosed", "notImplemented"):
                 return Verdict(AGREE)   # conditioning guard (see above)
-            return Verdict(VIOLATES, "implementation raises %s where the result exists" % impl["exc"],
-                           self.features(case, "raises", impl))
+            feat = self.features(case, "raises", impl)
+            if one_by_zero(model["ok"]):
+                feat["one_by_zero"] = True
+            return Verdict(VIOLATES, "implementation raises %s where the result exists" % impl["exc"], feat)
         a, b = impl["ok"], model["ok"]
         if a["type"] != b["type"]:
             return Verdict(VIOLATES, "result type %s vs %s" % (a["type"], b["type"]),
@@ -495,8 +610,10 @@ class C02(Family):
         if a["type"] != "ss":
             return Verdict(AGREE if a == b else DIFFERS, "non-system result differs")
         if (a["p"], a["m"]) != (b["p"], b["m"]):
-            return Verdict(VIOLATES, "shape %dx%d vs model %dx%d" % (a["p"], a["m"], b["p"], b["m"]),
-                           self.features(case, "shape", impl))
+            feat = self.features(case, "shape", impl)
+            if one_by_zero(b):
+                feat["one_by_zero"] = True
+            return Verdict(VIOLATES, "shape %dx%d vs model %dx%d" % (a["p"], a["m"], b["p"], b["m"]), feat)
         if a["n"] != b["n"]:
             return Verdict(VIOLATES, "state dimension %d, sum of the operands' is %d" % (a["n"], b["n"]),
                            self.features(case, "nstates", impl))
@@ -524,7 +641,7 @@ class C02(Family):
         t = case["tree"]
         if "ok" not in model or model["ok"]["type"] != "ss":
             return False
-        if not has_dynamic_leaf(t) or not any(o in BIN or o == "fb" for o in ops_in(t)):
+        if not has_dynamic_leaf(t) or not any(o in BIN or o in ("fb", "lft") for o in ops_in(t)):
             return False
         return model["ok"]["n"] > 0
 
